@@ -145,7 +145,14 @@ def make_walks(ctx, edges, rng, max_len, budget):
     def nk(known, own):
         return json.dumps([own, sorted(json.dumps(l, sort_keys=True) for l in known)])
 
+    dst = {}
+
     def after(e):
+        if id(e) not in dst:
+            dst[id(e)] = after_(e)
+        return dst[id(e)]
+
+    def after_(e):
         k = [json.dumps(l, sort_keys=True) for l in e["src"]]
         l = json.dumps(e["loc"], sort_keys=True)
         own = e["own"]
